@@ -433,6 +433,84 @@ fn long_lived_env_job(ctx: &Ctx, target_nodes: usize) -> Stats {
     st
 }
 
+/// An element type whose categorisation FAILS (panics) for one bit position — a short bit vector
+/// asked for a bit it does not have, say.
+#[derive(Clone, Copy, Debug)]
+pub struct Failing(pub usize, pub usize);
+
+impl rsbdd::set::BDDCategorizable for Failing {
+    fn categorize(&self, c: usize) -> bool {
+        if c == self.1 {
+            panic!("this element has no bit {}", c);
+        }
+        (self.0 >> c) & 1 == 0
+    }
+}
+
+/// Queries under observation: (1) while someone holds a shared borrow of the set's public diagram
+/// cell (reading or plotting it), a membership query must answer as usual — a query only reads;
+/// (2) a query that fails half-way (the element's categorisation panics, the caller catches it)
+/// must leave the set as it was.
+fn observed_queries_job(ctx: &Ctx, job: usize, iters: u64) -> Stats {
+    let mut st = Stats::new();
+    let mut rng = Rng::stream(ctx.seed, "C19.observed", job as u64);
+    for it in 0..iters {
+        let bits = 2 + rng.usize(4);
+        let universe = 1usize << bits;
+        let members: std::collections::BTreeSet<usize> = (0..universe).filter(|_| rng.chance(1, 2)).collect();
+        let probe = rng.usize(universe);
+        let fail_at = rng.usize(bits);
+        st.evals += 1;
+        let case = json!({"kind": "observed", "seed": ctx.seed, "job": job, "iteration": it});
+        util::budget(50_000_000, 1000);
+        let m2 = members.clone();
+        let r = {
+            guarded(move || -> Result<(), String> {
+                let env = Rc::new(BDDEnv::new());
+                let s = BDDSet::with_env(bits, &env);
+                for e in &m2 {
+                    s.insert(*e);
+                }
+                // (1) a reader holds the diagram while the query runs
+                {
+                    let reader = s.bdd.borrow();
+                    let answer = std::panic::catch_unwind(std::panic::AssertUnwindSafe(|| s.contains(probe)));
+                    drop(reader);
+                    match answer {
+                        Ok(a) if a == m2.contains(&probe) => {}
+                        Ok(a) => return Err(format!("with a reader holding the diagram, contains({}) = {} (the set is {:?})", probe, a, m2)),
+                        Err(_) => return Err(format!("contains({}) panics while a reader holds a shared borrow of the set's diagram (the set is {:?}): a query must only read", probe, m2)),
+                    }
+                }
+                // (2) a query that fails half-way
+                let failed = std::panic::catch_unwind(std::panic::AssertUnwindSafe(|| s.contains(Failing(probe, fail_at))));
+                if failed.is_ok() {
+                    return Err("the failing element did not fail (harness assumption)".into());
+                }
+                for e in 0..universe {
+                    let got = s.contains(e);
+                    if got != m2.contains(&e) {
+                        return Err(format!("after a query whose element failed to categorise bit {} (caught by the caller), contains({}) = {} but the set was {:?}", fail_at, e, got, m2));
+                    }
+                }
+                Ok(())
+            })
+        };
+        match r {
+            Ok(Ok(())) => {
+                st.bump("queries_under_observation");
+                if !members.is_empty() && members.len() < universe {
+                    st.nt.insert(mix(0x19_0b, mix(job as u64, it)));
+                }
+            }
+            Ok(Err(m)) if m.contains("harness assumption") => st.bump("failing_element_did_not_fail(skipped)"),
+            Ok(Err(m)) => st.violate("c19.query-pure", "C19:contains:query-modified-the-set".into(), format!("b = {}: {}", bits, m), case),
+            Err(c) => st.violate("c19.panic", format!("C19:observed:{}", c.signature()), format!("{:?}", c), case),
+        }
+    }
+    st
+}
+
 /// VERY LONG histories on one set: a query, then exactly N modifications (N around 2^8 and 2^16 and
 /// their multiples — where a narrow counter of modifications would wrap), then the same query
 /// first and all the others after it. The modifications are chosen so that the answer must have
@@ -777,6 +855,7 @@ pub fn run(ctx: &Ctx) -> (Stats, Spec) {
         s.merge(wide_job(ctx, job, ctx.tier.pick(40u64, 600u64)));
         s.merge(mixed_width_job(ctx, job, ctx.tier.pick(60u64, 3_000u64)));
         s.merge(wraparound_job(ctx, job));
+        s.merge(observed_queries_job(ctx, job, ctx.tier.pick(60u64, 2_000u64)));
         if job == 0 {
             s.merge(long_lived_env_job(ctx, ctx.tier.pick(1_400_000usize, 5_000_000usize)));
         }
@@ -787,7 +866,7 @@ pub fn run(ctx: &Ctx) -> (Stats, Spec) {
         super::common::miri_tripwire(ctx, &mut st, 150);
     }
     let spec = Spec {
-        rule: "breadth-first over reference states: two sets sharing one environment, each (state pair, next operation — insert, union, intersect, complement, empty, universe, contains, and `X = Y.clone()`) executed on fresh real sets via the shortest history reaching the state, and again (b <= 2: always, b = 3: every fourth state) after all REDUNDANT steps of that state (operations that leave the reference state unchanged); then all memberships of both sets are read twice through contains() and the public bdd field is compared across the queries; plus histories on WIDE sets (b in {31, 32, 33, 40, 48, 63, 64} with usize elements or a user-defined element type, b in {65, 66, 72, 96, 127, 128} with a user-defined 128-bit element type) over pools of sampled elements, their one-bit neighbours and (b > 64) elements equal modulo 2^64; plus histories over six to eight sets of DIFFERENT widths (families {1,2,3}, {2,3,4,5}, {3,4}, {0,1,6}, {4,64}, {2,33,5}, {3,3,4,4}; two sets per width) in one environment (sets also re-made through from_element and from_bdd), all memberships of all sets read back after every step; plus histories of exactly 255 .. 131 072 [quick] / .. 262 144 [thorough] modifications of ONE set between two identical queries (inserts through the universe, unions with an empty set, universe / empty flips); plus ONE long history of two 64-bit sets in one environment that grows beyond 1.4 million [quick] / 5 million [thorough] nodes, memberships of the newest, older and never-inserted elements compared after every step; plus random histories of length 5-64 [quick] / 5-504 [thorough] with b in 2..4. distinct = (state pair before the last operation, last operation, b); non-trivial = both sets neither empty nor the universe.".into(),
+        rule: "breadth-first over reference states: two sets sharing one environment, each (state pair, next operation — insert, union, intersect, complement, empty, universe, contains, and `X = Y.clone()`) executed on fresh real sets via the shortest history reaching the state, and again (b <= 2: always, b = 3: every fourth state) after all REDUNDANT steps of that state (operations that leave the reference state unchanged); then all memberships of both sets are read twice through contains() and the public bdd field is compared across the queries; plus histories on WIDE sets (b in {31, 32, 33, 40, 48, 63, 64} with usize elements or a user-defined element type, b in {65, 66, 72, 96, 127, 128} with a user-defined 128-bit element type) over pools of sampled elements, their one-bit neighbours and (b > 64) elements equal modulo 2^64; plus histories over six to eight sets of DIFFERENT widths (families {1,2,3}, {2,3,4,5}, {3,4}, {0,1,6}, {4,64}, {2,33,5}, {3,3,4,4}; two sets per width) in one environment (sets also re-made through from_element and from_bdd), all memberships of all sets read back after every step; plus histories of exactly 255 .. 131 072 [quick] / .. 262 144 [thorough] modifications of ONE set between two identical queries (inserts through the universe, unions with an empty set, universe / empty flips); plus queries UNDER OBSERVATION (while a reader holds a shared borrow of the public diagram cell; after a query whose user-defined element panicked half-way and was caught); plus ONE long history of two 64-bit sets in one environment that grows beyond 1.4 million [quick] / 5 million [thorough] nodes, memberships of the newest, older and never-inserted elements compared after every step; plus random histories of length 5-64 [quick] / 5-504 [thorough] with b in 2..4. distinct = (state pair before the last operation, last operation, b); non-trivial = both sets neither empty nor the universe.".into(),
         assumptions: vec![
             "only elements < 2^b are used (the statement speaks of b-bit integers)".into(),
             "`complement` is set difference, as the statement says".into(),
@@ -795,6 +874,7 @@ pub fn run(ctx: &Ctx) -> (Stats, Spec) {
         ],
         floors: vec![
             ("self_aliased_ops".into(), 100, "self-aliased operands never exercised".into()),
+            ("queries_under_observation".into(), 500, "queries under a live reader / failing queries never exercised".into()),
             ("very_long_single_set_histories".into(), 20, "histories of 2^8 / 2^16 modifications of one set never exercised".into()),
             ("histories_with_redundant_steps".into(), 1_000, "redundant steps never exercised".into()),
             ("wide_set_histories".into(), 200, "wide sets (b >= 31) never exercised".into()),
